@@ -142,6 +142,13 @@ CLAIMS["C13"] = (
     "push/extend, sites listed under bounds.outside.",
     "DESIGN.md §4 C13")
 
+CLAIMS["C08"] = (
+    "Solver verdict, for every score value, that a Valve split reply (Source and GoldSrc headers, 2-3 fragments) decodes to "
+    "the in-order result under each listed arrival order and that a duplicated fragment never yields a different "
+    "successful response; GameSpy 3 and Unreal 2 order dependence is decided too and reported as open known findings.",
+    "Trusted: hooks H3-H5. Arrival orders are concrete instances (all 6 orders of 3 fragments in the thorough tier).",
+    "DESIGN.md §4 C08")
+
 ALL = ["C%02d" % i for i in range(1, 21)]
 
 DEFAULT_NA = "check not built yet in this revision (work in progress; see DESIGN.md for the plan)"
